@@ -1,8 +1,5 @@
 // ---- ReceivedPdu / MainDevice as opaque types.  `maybe_wkc` carries the contract proved on the real code by the Kani
 //      group `wkc` (same statement). `net_response(cmd, len, p)` = "p is a response the network gave to this command". ----
-#[verifier::external_body]
-pub struct MainDevice { _p: u8 }
-
 /// stand-in for the raw-pointer view `ReceivedPdu<'sto>`: the counter field plus the viewed bytes as ghost data
 pub struct ReceivedPdu { pub working_counter: u16, pub d: Ghost<Seq<u8>> }
 
